@@ -20,6 +20,7 @@ from ..paths import Event, Path, PathEnumerator, find_calls
 from ..report import Report
 from ..resolve import CallGraph
 from ..sym import NONE, TRUE, Evaluator, Term, Unsupported, atoms_of, satisfiable, show, subterms, sym, t_and, t_cmp, t_not
+from .common import syntactic_callers
 from .common import norm_stmt, share_rule
 
 MEMO_DECORATORS = ("lru_cache", "functools.lru_cache", "cache", "functools.cache", "cached_property", "functools.cached_property")
@@ -186,15 +187,22 @@ def clears_after_or_neutral(model: Model, writer: FunctionInfo, node: ast.AST, m
         except Unsupported:
             return False
 
+    def pos(n):
+        return (getattr(n, "lineno", None), getattr(n, "col_offset", None), getattr(n, "end_lineno", None), getattr(n, "end_col_offset", None))
+
+    def is_node(n) -> bool:
+        # the statement itself, or a statement the syntax normaliser derived from it (derived nodes carry the position of their source)
+        return n is node or (pos(n) == pos(node) and pos(n)[0] is not None)
+
     def scan(p: Path, cond: Term, state: str, in_with: int) -> str:
         cond = t_and(cond, p.cond)
         for e in p.events:
-            if e.node is node and e.kind in ("store", "effect", "aug"):
+            if is_node(e.node) and e.kind in ("store", "effect", "aug"):
                 seen[0] += 1
                 if not neutral(e, cond):
                     state = "dirty"
                 # the same statement may also be a clearing call (x = f() where f clears): handled below
-            if is_clear(e) and e.node is not node:
+            if is_clear(e) and not is_node(e.node):
                 if e.kind == "with":
                     in_with += 1
                 if state == "dirty":
@@ -306,7 +314,7 @@ def h1(model: Model, rep: Report, cg: CallGraph, ef: Effects):
                           what=f"the graph of a circuit changes but values memoised by {M.qualname} survive: an operation following this block keeps its old start time ({why})",
                           detail=f"call:{hit[0].name}")
     rep.floor("(memo, location, writer) obligations", n_ob, 8)
-    rep.floor("calls of graph mutators from outside the graph classes", n_call, 4)
+    rep.floor("calls of graph mutators from outside the graph classes", n_call, 2)
 
 
 # ---------------------------------------------------------------------------------------------
@@ -365,9 +373,15 @@ def h2(model: Model, rep: Report, cg: CallGraph, ef: Effects):
             # a write inside a private helper belongs to the public method it was extracted from
             owner = w.fn
             for x in reversed(path):
-                if not is_private_helper(x):
-                    owner = x
-                    break
+                owner = x
+                if is_private_helper(x):
+                    continue
+                # a function with a single caller in the package is a piece of that caller (e.g. a generator split off a listing method)
+                callers = syntactic_callers(model, x)
+                idx = path.index(x)
+                if len(callers) == 1 and idx > 0 and callers[0] is path[idx - 1]:
+                    continue
+                break
             key = (owner.qualname, norm_stmt(w.node))
             if key in seen:
                 continue
